@@ -7,6 +7,7 @@ import Bourse.Model.Rng
 import Bourse.Model.Env
 import Bourse.Lemmas.ShuffleBij
 import Bourse.Lemmas.Lemire
+import Bourse.Lemmas.ShuffleCount
 import Mathlib.Data.List.Permutation
 import Mathlib.Data.Nat.Factorial.Basic
 
@@ -150,6 +151,45 @@ theorem shuffle_outcomes_are_all_permutations_once {α} [DecidableEq α] (l : Li
 orders, each once. -/
 example : ((validDraws 2).map (shuffleDraws 2 [10, 20, 30])) =
     [[20, 30, 10], [30, 20, 10], [30, 10, 20], [10, 30, 20], [20, 10, 30], [10, 20, 30]] := by decide
+
+/-! ### The two marginal readings of "uniform permutation"
+
+Consequences of `shuffle_outcomes_are_all_permutations_once`, by counting over ALL `n!` valid draw
+vectors (each has probability `1/n!` under uniform independent bounded draws): -/
+
+/-- **Every instruction is equally likely to be processed at every position**: for every instruction
+`x` of a duplicate-free batch of `n` and every position `i < n`, exactly `(n-1)!` of the `n!` draw
+vectors process `x` at position `i` — probability `1/n`, whatever `x`, `i`, the submission order or the
+instructions are. -/
+theorem every_instruction_equally_likely_at_every_position {α : Type} [DecidableEq α] (l : List α) (hn : l.Nodup)
+    (x : α) (hx : x ∈ l) (i : Nat) (hi : i < l.length) :
+    ((validDraws (l.length - 1)).map (shuffleDraws (l.length - 1) l)).countP (fun p => p[i]? == some x)
+      = (l.length - 1).factorial := by
+  rw [(shuffle_outcomes_are_all_permutations_once l hn).countP_eq]
+  exact ShuffleCount.count_at_position l hn x hx i hi
+
+/-- **Every relative order of two instructions is equally likely**: for two distinct instructions the
+draw vectors that process `x` before `y` are exactly as many as those that process `y` before `x`, and
+together they are all `n!` — probability `1/2` each. -/
+theorem every_relative_order_equally_likely {α : Type} [DecidableEq α] (l : List α) (hn : l.Nodup)
+    (x y : α) (hx : x ∈ l) (hy : y ∈ l) (hxy : x ≠ y) :
+    let outcomes := (validDraws (l.length - 1)).map (shuffleDraws (l.length - 1) l)
+    outcomes.countP (fun p => decide (p.idxOf x < p.idxOf y)) = outcomes.countP (fun p => decide (p.idxOf y < p.idxOf x)) ∧
+    outcomes.countP (fun p => decide (p.idxOf x < p.idxOf y)) + outcomes.countP (fun p => decide (p.idxOf y < p.idxOf x))
+      = l.length.factorial := by
+  intro outcomes
+  have hp := shuffle_outcomes_are_all_permutations_once l hn
+  have := ShuffleCount.count_before l hn x y hx hy hxy
+  simp only [outcomes]
+  rw [hp.countP_eq, hp.countP_eq]
+  exact this
+
+/-- Concrete reading (kernel evaluation) for a batch of three: each instruction stands at each position
+in 2 of the 6 outcomes; `10` precedes `30` in 3 of them. -/
+example :
+    let outcomes := (validDraws 2).map (shuffleDraws 2 [10, 20, 30])
+    ([10, 20, 30].map fun x => (List.range 3).map fun i => outcomes.countP (fun p => p[i]? == some x)) = [[2, 2, 2], [2, 2, 2], [2, 2, 2]] ∧
+    outcomes.countP (fun p => decide (p.idxOf 10 < p.idxOf 30)) = 3 := by decide
 
 /-! ### Each bounded draw is exactly uniform
 
